@@ -175,3 +175,35 @@ def is_const_of(e, value_text: Union[str, Sequence[str]], binds=None) -> bool:
 def is_name_of(e, id_text: Union[str, Sequence[str]], binds=None) -> bool:
     """e is ast.Name(id=<id_text>, ...)"""
     return is_ctor(e, "Name", {"id": id_text}, binds)
+
+
+def path_aliases(fn_node) -> Dict[str, ast.expr]:
+    """single-binding locals that merely name a path (`value = node.value`): a matching aid - the rules that use it
+    compare what an expression denotes, and say so"""
+    out = {}
+    for k, v in bindings(fn_node).items():
+        x = v
+        ok = True
+        while isinstance(x, (ast.Attribute, ast.Subscript)):
+            if isinstance(x, ast.Subscript) and not isinstance(x.slice, (ast.Constant, ast.UnaryOp)):
+                ok = False
+            x = x.value
+        if ok and isinstance(x, ast.Name) and not isinstance(v, ast.Name):
+            out[k] = v
+    return out
+
+
+def tx(e, aliases: Dict[str, ast.expr]) -> str:
+    """t(e) with path aliases expanded"""
+    import copy as _copy
+
+    if e is None:
+        return ""
+
+    class S(ast.NodeTransformer):
+        def visit_Name(self, n):
+            if isinstance(n.ctx, ast.Load) and n.id in aliases:
+                return _copy.deepcopy(aliases[n.id])
+            return n
+
+    return t(S().visit(_copy.deepcopy(e)))
